@@ -1,6 +1,12 @@
 HOOK_COMMITS = []
 NOT_APPLICABLE = {}
 META = {
+    "C05": dict(
+        engine="E1 bytes/addr (ip)",
+        technique="Lean 4 theorems over all 4-byte, IPv4-mapped and 16-byte values (byte-mask lemmas by kernel evaluation over 256 values, then grind); model tied by differential correspondence with onet.RequirePublicIP and a numeric-range oracle",
+        text="Kernel-checked equivalence between the model of RequirePublicIP (over the CIDR table regenerated from source) and an independent numeric-range specification of the forbidden blocks, for every IPv4/IPv6/mapped/odd-length value; the model is run against the real function on block boundaries and 10^5 addresses per quick run.",
+        note="Trusted: Lean kernel, hand model of Go's net.IP predicates (validated differentially), extractor for the CIDR literals; hostname resolution is an oracle; the dial paths are covered by the handler models (C03/C04 engines) and wiring facts.",
+    ),
     "C07": dict(
         engine="E2 auth (replay)",
         technique="Lean 4 theorems by induction over Add/Resize histories (invariant `Safe`), model tied by differential correspondence with the real ReplayCache and a sliding-window oracle",
